@@ -9,7 +9,7 @@ use serde_json::{json, Value};
 pub const HEADERS: [&str; 2] = ["Hash: SHA256", "Hash: SHA512"];
 /// payload line templates: plain lines plus every marker wrapped in the neighbouring non-dash contexts
 /// (prefix 'x', leading blank / tab, trailing blank) -- none begins with '-'
-pub const PAYLOAD: [&str; 15] = [
+pub const PAYLOAD: [&str; 20] = [
     "A: b\r",
     "\r",
     "",
@@ -25,6 +25,12 @@ pub const PAYLOAD: [&str; 15] = [
     " -----END PGP SIGNATURE-----",
     " -----BEGIN PGP SIGNED MESSAGE-----",
     "x-----BEGIN PGP SIGNED MESSAGE-----",
+    // multi-byte characters at every small byte offset (a byte-indexed prefix test cuts inside them), and NUL
+    "\u{20ac}uro",
+    "a\u{20ac}",
+    "\u{1f600}",
+    "ab\u{1d400}",
+    "\u{0}x",
 ];
 pub const SIGLINES: [&str; 6] = ["iQ", "=ab", "x y", "", " -----END PGP SIGNATURE-----", "x-----BEGIN PGP SIGNATURE-----"];
 /// first lines of texts that are NOT signed messages although they look like armour
@@ -161,7 +167,7 @@ impl Prop for C19 {
         "fault_enumeration"
     }
     fn rule(&self, _t: Tier) -> String {
-        "message family = (a) one line of 255 / 256 / 257 / 65535 / 65536 / 65537 characters as payload line, signature line or armour header, with every line cut; (b) every sequence of <= 2 armour headers x every sequence of <= 3 (thorough 4) payload lines from 15 templates (two ending in CR, empty, deb822, indented, header look-alike, Unicode, and all three markers behind a letter / blank / tab or followed by a blank) x every sequence of <= 2 signature lines from 6 (incl. an empty line and marker look-alikes); faults, ALL of them per message: no fault, truncation after every line (0..all), every trailing addition from 4, the payload alone and behind 4 armour-like first lines that are not the signed-message marker (unsigned passthrough), and for the sub-family with <= 1 header, <= 2 payload lines, <= 1 signature line every BYTE prefix; the expected result is computed from the construction offsets, never by re-scanning; all cases distinct; non-trivial = every case with a fault".into()
+        "message family = (a) one line of 255 / 256 / 257 / 65535 / 65536 / 65537 characters as payload line, signature line or armour header, with every line cut; (b) every sequence of <= 2 armour headers x every sequence of <= 3 (thorough 4) payload lines from 20 templates (two ending in CR, empty, deb822, indented, header look-alike, two-, three- and four-byte characters at byte offsets 0, 1 and 2, NUL, and all three markers behind a letter / blank / tab or followed by a blank) x every sequence of <= 2 signature lines from 6 (incl. an empty line and marker look-alikes); faults, ALL of them per message: no fault, truncation after every line (0..all), every trailing addition from 4, the payload alone and behind 4 armour-like first lines that are not the signed-message marker (unsigned passthrough), and for the sub-family with <= 1 header, <= 2 payload lines, <= 1 signature line every BYTE prefix; the expected result is computed from the construction offsets, never by re-scanning; all cases distinct; non-trivial = every case with a fault".into()
     }
     fn bounds(&self, t: Tier) -> Value {
         json!({"headers": HEADERS, "payload_lines": PAYLOAD, "signature_lines": SIGLINES, "appends": APPENDS, "max_headers": 2, "max_payload_lines": t.pick(3, 4), "max_signature_lines": 2})
